@@ -21,7 +21,7 @@ pub fn property() -> Property {
                 name: "movesets",
                 quick: 40_000,
                 thorough: 4_000_000,
-                single_shard: false,
+                single_shard: false, supplementary: false,
                 run: |cfg| run_part(cfg, gen::raw_pos(80), |r| PosCase { fen: gen::position(r, ClockDomain::Unmake).fen() }, check_movesets),
                 replay: |v| replay_case::<PosCase, _>(v, check_movesets),
             },
@@ -29,7 +29,7 @@ pub fn property() -> Property {
                 name: "perft",
                 quick: 600,
                 thorough: 40_000,
-                single_shard: false,
+                single_shard: false, supplementary: false,
                 run: |cfg| run_part(cfg, gen::raw_pos(60), |r| PosCase { fen: gen::position(r, ClockDomain::Unmake).fen() }, check_perft),
                 replay: |v| replay_case::<PosCase, _>(v, check_perft),
             },
